@@ -20,7 +20,8 @@ ID = "C07"
 RULE = (
     "types = grammar T (atoms, containers, TypedDicts, unions of 2..8 members in every rotation / permutation) + every "
     "distinct type inferred from grammar values (singles, merged pairs, all k); rewriters = 7 shipped singles + DEFAULT "
-    "chain + 49 ordered ChainedRewriter pairs; state = (type, rewriter), transition = one rewrite judged by (no "
+    "chain + 49 ordered ChainedRewriter pairs; + histories of 2..3 generations of one hierarchy rebuilt under the same "
+    "class names in 4 shapes (rewriters and their class-level state live across the history); state = (type, rewriter), transition = one rewrite judged by (no "
     "exception, witnesses stay members, change => documented trigger, chain == sequential composition); non-trivial "
     "= rewrite that changed the type"
 )
@@ -190,6 +191,71 @@ def collapse_family() -> List[Tuple[Any, List[str]]]:
     return out
 
 
+GEN_SHAPES = ("common", "none", "deep", "other-root")
+
+
+def make_generation(shape: str):
+    """One generation of a small hierarchy whose classes carry the SAME module and qualified names every time it is built
+    (a re-executed module, a class factory, function-local classes): GB and GC with, depending on the shape, a common base
+    GA, no common base, GC below GB, or a common base that is a different root class GR."""
+    ns = {"__module__": "vfx.generations"}
+    mk = lambda name, bases: type(name, bases, dict(ns, __qualname__=name))  # noqa: E731
+    A = mk("GA", ())
+    R = mk("GR", ())
+    if shape == "common":
+        B, C = mk("GB", (A,)), mk("GC", (A,))
+    elif shape == "none":
+        B, C = mk("GB", ()), mk("GC", ())
+    elif shape == "deep":
+        B = mk("GB", (A,))
+        C = mk("GC", (B,))
+    else:
+        B, C = mk("GB", (R,)), mk("GC", (R,))
+    return B, C
+
+
+def generation_stage(res: Result) -> None:
+    """Histories of two and three generations (every ordered selection of the four shapes): the classes of a later
+    generation are different objects with the names of the earlier one. Every shipped rewriter and the default chain rewrite
+    Union[GB, GC], Optional[...] and List[Union[GB, GC]] of each generation in turn, on instances that live for the whole
+    history (class-level state included); each step is judged like any other (witnesses = instances of that generation)."""
+    from typing import List as L
+    from typing import Optional as Opt
+    from typing import Union as U
+
+    from monkeytype.typing import DEFAULT_REWRITER
+
+    sing = singles() + [("DEFAULT", DEFAULT_REWRITER)]
+    for n in (2, 3):
+        for hist in itertools.product(GEN_SHAPES, repeat=n):
+            res.states += 1
+            for gi, shape in enumerate(hist):
+                B, C = make_generation(shape)
+                vals = [B(), C()]
+                for form, X, ws in (("union", U[B, C], vals), ("optional", Opt[U[B, C]], vals + [None]), ("list", L[U[B, C]], [[B(), C()], [C()]])):
+                    for rname, rw in sing:
+                        res.transitions += 1
+                        res.evaluations += 1
+                        case = {"generations": list(hist), "at": gi, "form": form, "rewriter": [rname]}
+                        if rname == "DEFAULT":
+                            try:
+                                Y = rw.rewrite(X)
+                            except Exception as e:  # noqa: BLE001
+                                res.violate(Violation(ID, "exception", "generations:DEFAULT:exception", case, f"DEFAULT raised {e!r}"))
+                                continue
+                            bad = [w for w in ws if not O.member(w, Y)]
+                            if bad:
+                                res.violate(Violation(ID, "narrow", "generations:DEFAULT:narrow", case, f"DEFAULT: generation {gi} of {hist}: {O.show(X)} -> {O.show(Y)} no longer admits an instance of {type(bad[0]).__name__}"))
+                            continue
+                        Y, viol = step_check(rname, rw, X, ws)
+                        if viol:
+                            res.violate(Violation(ID, viol[0], "generations:" + viol[1], case, f"generation {gi} of {hist}: " + viol[2]))
+                        elif O.struct(Y) != O.struct(X):
+                            res.nontrivial_n += 1
+                            res.outcomes.add(("gen", rname, shape, form))
+    res.oblige("generations:MSCB-fired", any(o[:2] == ("gen", "MSCB") for o in res.outcomes if isinstance(o, tuple)))
+
+
 def process_type(res: Result, ctx_tier: str, ci: int, X: Any, exprs: List[str], sing, memo, DEFAULT_REWRITER, ChainedRewriter) -> None:
     """Everything that is done with one type, in a fixed order (singles, the 49 pairs, the default chain): state carried
     between rewriter calls is part of what is explored, so --replay re-runs this whole procedure for the case's type."""
@@ -284,6 +350,8 @@ def run(ctx: Ctx) -> Result:
         for ci in range(si, len(cases), nshards):
             X, exprs = cases[ci]
             process_type(res, ctx.tier, ci, X, exprs, sing, memo, DEFAULT_REWRITER, ChainedRewriter)
+        if si == 0:
+            generation_stage(res)
         res.extra["types_synthetic"] = len(synth)
         res.extra["types_inferred"] = len(cases) - len(synth)
         return res
@@ -300,6 +368,11 @@ def run(ctx: Ctx) -> Result:
 
 def replay(case: Dict[str, Any], ctx: Ctx) -> List[Violation]:
     from monkeytype.typing import DEFAULT_REWRITER, ChainedRewriter
+
+    if "generations" in case:
+        res = Result()
+        generation_stage(res)
+        return res.violations
 
     quick = case["tier"] == "quick"
     synth = [(t, []) for t in G.all_types(quick)]
